@@ -17,12 +17,12 @@ DehydrateSim ==
     /\ phase = "collect" /\ pos <= N /\ inflight.c = 0
     /\ \E k \in Pick(Kinds), m \in Pick(IF MaxElems = 0 THEN {FALSE} ELSE BOOLEAN),
           fl \in Pick(IF MayFail THEN {FALSE, FALSE, FALSE, TRUE} ELSE {FALSE}),
-          oc \in Pick(OutcomeSet \cup {"crash"}), bk \in Pick(BackedSet) :
+          oc \in Pick(OutcomeSet \cup {"crash"}), bk \in Pick(BackedSet), lt \in Pick(LateSet) :
        \E sa \in Pick(IF m THEN SaveAsOf(k) \ {"file"} ELSE SaveAsOf(k)),
           n \in Pick(IF m THEN 1..MaxElems ELSE {1}) :
        \E lss \in {[j \in 1..n |-> RandLines(j)]} :
           DehydrateWith(IF fl THEN NoValue(oc, bk)
-                        ELSE [kind |-> k, multi |-> m, failed |-> FALSE, outcome |-> "ok", backed |-> bk, filtered |-> FALSE, saveas |-> sa,
+                        ELSE [kind |-> k, multi |-> m, failed |-> FALSE, outcome |-> "ok", backed |-> bk, filtered |-> FALSE, late |-> lt, saveas |-> sa,
                               elems |-> [j \in 1..n |-> Elem(lss[j], CmdOf(k, pos, j), ArgsOf(k, pos, j, m))]])
 
 CorruptSim ==
